@@ -306,7 +306,17 @@ pub fn execute(sb: &Sandbox, base: &Files, op: &OpSpec, plan: &FaultPlan) -> Obs
     let before = sb.snapshot();
     let texts: Vec<Vec<u8>> = before.iter().filter(|(k, _)| k.ends_with(".gom")).map(|(_, v)| v.clone()).collect();
     let args = expand(sb, &op.args);
+    let t0 = std::time::Instant::now();
     let res = ops::goml(sb, &plan.spec, args);
+    if let Ok(path) = std::env::var("VERIF_SLOW_LOG") {
+        let el = t0.elapsed().as_secs_f64();
+        if el > 2.0 {
+            use std::io::Write;
+            if let Ok(mut f) = std::fs::OpenOptions::new().create(true).append(true).open(path) {
+                let _ = writeln!(f, "{el:.1}s syscalls={} exit={} op={} {:?} store={:?} chunk={} plan={:?}", res.syscalls, res.exit.class(), op.entry, op.args.last(), plan.store, plan.spec.chunk, plan.spec.plan);
+            }
+        }
+    }
     let mut counts: BTreeMap<&'static str, u32> = BTreeMap::new();
     for e in &res.log {
         *counts.entry(e.call).or_insert(0) += 1;
@@ -1182,7 +1192,7 @@ pub fn replay(file: &Value) -> bool {
 }
 
 
-const HANG_LIMIT: std::time::Duration = std::time::Duration::from_secs(150);
+const HANG_LIMIT: std::time::Duration = std::time::Duration::from_secs(600);
 const CHILD_MEMORY_LIMIT: u64 = 3 << 30;
 
 fn out_base(k: usize) -> String {
